@@ -98,6 +98,13 @@ def _near_miss(rng, files):
     lines = G.split_keep(base)
     if not lines:
         return base
+    if rng.random() < .2:
+        # one line indented a little differently (the inconsistent dedent / stray indent)
+        k = rng.randrange(len(lines))
+        body = lines[k].lstrip(' \t')
+        width = len(lines[k]) - len(body)
+        lines[k] = ' ' * max(0, width + rng.choice([-3, -2, -1, 1, 2, 3, 4])) + body
+        return ''.join(lines)
     if rng.random() < .5 and len(lines) > 1:
         k = rng.randrange(len(lines) - 1)
         lines[k] = lines[k].rstrip('\r\n') + ' '
